@@ -9,7 +9,7 @@ RULE = ("pairs of closed polygonal curves (int/Fraction/float; crossing, nested,
         "edges, identical, reversed) x all four flag combinations x both operand orders, plus a curved stream "
         "(circle vs square / circle vs circle: soundness and count of transversal crossings only); non-trivial = "
         "at least one interior crossing; distinct = SHA-1 of the case")
-RULE_EXTRA = ("; a few-arc circle rotated by an arbitrary angle and moved, against random polygons: every closed-form crossing of "
+RULE_EXTRA = ("; a few-arc circle rotated by an arbitrary angle and moved, against random polygons, either curve travelled in either direction: every closed-form crossing of "
               "every arc with every edge reported, nothing else, B & A the swap of A & B; a parabola arc against polygons in general position, int / Fraction / float control points: every closed-form "
               "crossing reported once at the right parameters (1e-6), nothing else, even count, swap symmetry")
 RULE = RULE + RULE_EXTRA
@@ -81,7 +81,7 @@ def cases(ctx):
             d0, d1, w = r * rng.choice([0.9, 0.95, 0.985]), 3 * r, 2 * r
             poly = [[c[0] + d * ux - t * uy, c[1] + d * uy + t * ux] for d, t in ((d0, -w), (d1, -w), (d1, w), (d0, w))]
         yield {"rotcircle": rng.choice([4, 5, 6, 8]), "angle": rng.choice([10, 25, 40, 60, 75, 100, 130, 200]) + rng.randint(0, 4),
-               "c": c, "r": r, "poly": poly}
+               "c": c, "r": r, "poly": poly, "cw": i % 2 == 1, "pcw": i % 4 >= 2}
     for i in range(ctx.n(3, 40)):
         yield {"curved": True, "r": rng.choice([1.0, 1.5, 0.8]), "c": [rng.uniform(-0.3, 0.3), rng.uniform(-0.3, 0.3)],
                "side": rng.choice([1.7, 2.2, 1.3]), "nd": rng.choice([4, 8, 16])}
@@ -202,6 +202,11 @@ def _rotcircle(ctx, case):
     C.rotate(case["angle"], degrees=True)
     C.move(case["c"][0], case["c"][1])
     JA = C.jordans[0]
+    if case.get("cw"):
+        JA = ~JA                       # travelled clockwise (a hole boundary, the operand of a subtraction)
+    if case.get("pcw"):
+        vs = vs[::-1]
+    ctx.count("rotcircle:%s circle, %s polygon" % ("cw" if case.get("cw") else "ccw", "cw" if case.get("pcw") else "ccw"))
     JB = I.JordanCurve.from_vertices(vs)
     want, safe = [], True
     for ia, sg in enumerate(JA.segments):
